@@ -11,11 +11,13 @@ mod rt;
 mod c07;
 mod c08;
 mod gram;
+mod c09;
 mod c10;
 mod c11;
 mod c12;
 mod rx;
 mod c15;
+mod c16;
 
 pub struct Args {
     pub cmd: String,
@@ -63,10 +65,12 @@ fn main() {
         "c03" => c03::run(&a),
         "c07" => c07::run(&a),
         "c08" => c08::run(&a),
+        "c09" => c09::run(&a),
         "c10" => c10::run(&a),
         "c11" => c11::run(&a),
         "c12" => c12::run(&a),
         "c15" => c15::run(&a),
+        "c16" => c16::run(&a),
         other => {
             eprintln!("unknown subcommand {other}");
             std::process::exit(2)
